@@ -297,4 +297,17 @@ def run(ctx):
         run.instance(R9, {"fn": "owner::scan", "obligation": "scan::scan only after update_outputs(.., true) Ok (the constant true, not a condition on the start height)"}, held=held)
         if not held:
             run.finding(Finding(R9, osc.id, "the refresh in front of a scan no longer covers all records on every path: confirmed outputs that a reorganisation removed are not compared with the node, the payment stays confirmed and spendable", site=osc.loc()))
+    R10 = "C18.R10"
+    run.rule(R10, "a payment re-created by a restore can later be recognised as reverted: its log entry carries the kernel excess the revert detection looks up", floor=1)
+    rmo = ctx.fn(c.LW + "internal::scan::restore_missing_output")
+    if rmo is None:
+        run.error("C18.R10: restore_missing_output not found")
+    else:
+        TLE10 = c.LW + "types::TxLogEntry"
+        saves10 = cfg.find_calls(rmo, c.WOB + "save_tx_log_entry")
+        ke = vf.field_assignments(rmo, TLE10, "kernel_excess")
+        held = not saves10 or bool(ke)
+        run.instance(R10, {"fn": "restore_missing_output", "obligation": "the TxReceived entry written for a restored output has a kernel_excess", "entries written": len(saves10), "kernel_excess assignments": len(ke)}, held=held)
+        if not held:
+            run.finding(Finding(R10, rmo.id, "log entries re-created by a restore carry no kernel excess: when such a payment is reorganised away later the output is marked Spent, the entry stays confirmed, and after re-mining the entry ends cancelled while its output is spendable", site=rmo.loc()))
     run.not_decided += ["fork depths, repeated flip-flops, what a scan reports after a reorganisation (histories over a chain)"]
